@@ -50,6 +50,9 @@ pub uninterp spec fn iter_items<'a>(db: &'a ComponentDb) -> Seq<(ComponentId, &'
 pub struct VerifIter<T> { _k: PhantomData<T> }
 impl<T> View for VerifIter<T> { type V = Seq<T>; uninterp spec fn view(&self) -> Seq<T>; }
 impl<T> VerifIter<T> {
+    /// API neighbourhood (not called by the unchanged code): `Iterator::take` / `skip`
+    #[verifier::external_body] pub fn take(self, n: usize) -> (r: VerifIter<T>) ensures r@ == self@.take(if n <= self@.len() { n as int } else { self@.len() as int }) { unimplemented!() }
+    #[verifier::external_body] pub fn skip(self, n: usize) -> (r: VerifIter<T>) ensures r@ == self@.skip(if n <= self@.len() { n as int } else { self@.len() as int }) { unimplemented!() }
     #[verifier::external_body]
     pub fn next(&mut self) -> (r: Option<T>)
         ensures match r {
@@ -101,3 +104,20 @@ pub fn verif_array_iter<T>(v: Vec<T>) -> (r: VerifIter<T>) ensures r@ == v@ { un
 #[verifier::external_body]
 pub fn verif_iter_set<'a, T>(s: &'a IndexSet<T>) -> (r: VerifIter<&'a T>)
     ensures r@.len() == s.v@.len(), forall |i: int| 0 <= i < s.v@.len() ==> *(#[trigger] r@[i]) == s.v@[i] { unimplemented!() }
+
+// ---- rustdoc_ir::Callable: only the types of its input parameters, in order ----------------------------------------------
+#[verifier::external_body] pub struct Callable { _p: u8 }
+pub uninterp spec fn callable_inputs(c: &Callable) -> Seq<&Type>;
+#[verifier::external_body] pub struct CallableInputs<'a> { _p: PhantomData<&'a u8> }
+pub uninterp spec fn ci_seq<'a>(c: &CallableInputs<'a>) -> Seq<&'a Type>;
+impl Callable {
+    /// `self.inputs().iter().map(|i| &i.type_)`
+    #[verifier::external_body] pub fn input_types(&self) -> (r: CallableInputs<'_>) ensures ci_seq(&r) == callable_inputs(self) { unimplemented!() }
+    /// `Display`
+    #[verifier::external_body] pub fn to_string(&self) -> String { unimplemented!() }
+}
+impl<'a> CallableInputs<'a> {
+    /// `Iterator::enumerate`: the items paired with their positions
+    #[verifier::external_body] pub fn enumerate(self) -> (r: VerifIter<(usize, &'a Type)>)
+        ensures r@.len() == ci_seq(&self).len(), forall |i: int| 0 <= i < r@.len() ==> (#[trigger] r@[i]).0 == i && r@[i].1 == ci_seq(&self)[i] { unimplemented!() }
+}
